@@ -12,7 +12,7 @@ LEVEL = "model_checking"
 EXPLANATION = ("symbolic execution of the real Event/Mqtt/Webhook listeners and queues (legacy) and EventTriggerDecorator/MqttTriggerDecorator/WebhookTriggerDecorator "
                "(default) plus call_action / FunctionDecoratorManager.dispatch and Function.event_fire/service_call/State.set through the full stack")
 BOUNDS = {"quick": "2 fired events (type in 3, payload n in [1,3], context yes/no, burst yes/no); earlier runs sleeping; 2 MQTT / webhook messages",
-          "thorough": "3 events / 3 messages"}
+          "thorough": "3 events (first payload in [1,2]; third: any type, payload 1, no explicit context) / 3 messages"}
 OUTSIDE = "Home Assistant's bus dispatch itself, the MQTT transport / paho, aiohttp request parsing (request.json()/post() are stubs), more events than the bound"
 ASSUMPTIONS = [
     "stub bus: listeners called in registration order, coroutine listeners started eagerly (HA 2024+); mqtt.async_subscribe / webhook.async_register are recording stubs",
@@ -48,6 +48,7 @@ def events(t1: int, n1: int, c1: bool, b1: bool, t2: int, n2: int, c2: bool, b2:
     """
     pre: 0 <= t1 <= 2 and 0 <= t2 <= 2 and 0 <= t3 <= 2 and 0 <= t4 <= 2
     pre: 1 <= n1 <= 3 and 1 <= n2 <= 3 and 1 <= n3 <= 3 and 1 <= n4 <= 3 and (P("t1") is None or t1 == P("t1"))
+    pre: P("k") < 3 or (n3 == 1 and not c3 and n1 <= 2)
     post: _
     """
     from vlib.world import mkworld, SEC
